@@ -89,6 +89,8 @@ type Doc struct {
 	// ConflictExcluded / ClonedDirs: see GenOpts.PConflictExcluded / PCloneDirs.
 	ConflictExcluded int
 	ClonedDirs       int
+	// UnionInObject: see GenOpts.PUnionInObject.
+	UnionInObject int
 	// Mutation: the operation is a mutation (root type Mutation).
 	Mutation bool
 }
